@@ -37,6 +37,7 @@ Definition cont_ok (c : tree) : bool :=
     - the kind tag agrees with the shape of the node;
     - what a create_task node created is a task (a section/task node that is not a section);
     - the last subgraph of an expanded section/task is a primitive interval (wait_tasks / end_task);
+    - in_edge_kind of an expanded section/task is that of its first subgraph (dr_accumulate_stats);
     - create_task nodes occur only directly inside sections;
     - a subgraph that follows another one is entered through a continuation edge
       (in_edge_kind of its first interval is create_cont, wait_cont, other_cont or end). *)
@@ -46,6 +47,7 @@ Fixpoint wf_tree (t : tree) : bool :=
   | Create d c => (t_kind d =? K_create) && is_SubT c && negb (t_kind (tdata c) =? K_section) && wf_tree c
   | Sub d cs =>
       (K_section <=? t_kind d) && last_is_leaf cs
+      && (match cs with [] => true | c :: _ => t_in_edge d =? t_in_edge (tdata c) end)
       && ((t_kind d =? K_section) || negb (existsb is_CreateT cs))
       && forallb cont_ok (tl cs)
       && (fix all (l : list tree) : bool := match l with [] => true | c :: r => wf_tree c && all r end) cs
